@@ -852,6 +852,48 @@ return crate::runner::fail(&format!("oversized-accepted/{}", $name), format!("a 
                 rep.nontrivial_by(&input);
                 Ok(())
             }
+            _ if src.chance(1, 8) => {
+                // the key map (what signers query through rust-bitcoin's GetKey): secret keys
+                // with and without origin, requests by fingerprint + path of any length and by key
+                use bitcoin::bip32::{ChildNumber, Fingerprint};
+                use bitcoin::psbt::{GetKey, KeyRequest};
+                let secp = Secp256k1::new();
+                let n = src.range(1, 3);
+                let mut parts = Vec::new();
+                for _ in 0..n {
+                    let mut t = crate::checks::c10::secret_forms(src);
+                    if src.bool() && !t.starts_with('[') {
+                        t = format!("[{}/84'/1'/0']{}", keys::master_fingerprint(), t);
+                    }
+                    parts.push(t);
+                }
+                let dtext = if parts.len() == 1 { format!("wpkh({})", parts[0]) } else { format!("wsh(multi(1,{}))", parts.join(",")) };
+                rep.desc = clip(&dtext);
+                let (_, km) = match timed("Descriptor::parse_descriptor", &dtext, || Descriptor::<DescriptorPublicKey>::parse_descriptor(&secp, &dtext))? {
+                    Ok(x) => x,
+                    Err(_) => return Ok(()),
+                };
+                rep.class("keymap");
+                for _ in 0..12 {
+                    let fp = match src.below(3) {
+                        0 => Fingerprint::from_str(&keys::master_fingerprint()).unwrap_or_default(),
+                        1 => keys::u().accounts[src.below(keys::N_ACCOUNTS)].2.fingerprint(),
+                        _ => Fingerprint::from([src.raw() as u8, 1, 2, 3]),
+                    };
+                    let len = src.below(7);
+                    let mut path = Vec::new();
+                    for j in 0..len {
+                        let v = [84u32, 1, 0, 0, 1, 2, 5][(j + src.below(2)) % 7];
+                        path.push(if src.chance(1, 2) && j < 3 { ChildNumber::from_hardened_idx(v).unwrap() } else { ChildNumber::from_normal_idx(v).unwrap() });
+                    }
+                    let req = KeyRequest::Bip32((fp, path.into()));
+                    timed("KeyMap::get_key(Bip32)", &dtext, || km.get_key(req, &secp).is_ok())?;
+                }
+                let pk = bitcoin::PublicKey::new(keys::u().pks[src.below(8)]);
+                timed("KeyMap::get_key(Pubkey)", &dtext, || km.get_key(KeyRequest::Pubkey(pk), &secp).is_ok())?;
+                rep.nontrivial_by(&dtext);
+                Ok(())
+            }
             _ => {
                 // plan
                 let kind = pick_kind(src);
